@@ -980,12 +980,15 @@ func judgeStreamTrace(sc *sScript, trace []sObs, hist []histEv) [][3]string {
 				if o[0] != "at" {
 					continue
 				}
+				// a start time: every event at or after it is expected (if
+				// retention has already discarded some of them the stream must
+				// fail with ErrLostOplogPosition); a time after the newest event
+				// is "from now on"
 				p := int(atoi64(o[1]))
-				if p < ntrim {
-					p = ntrim
-				}
 				if p < histLen {
 					s.pos, s.anchored = p, p > ntrim
+				} else {
+					s.pos, s.anchored = histLen, ntrim < histLen
 				}
 			}
 			if s.open != resolvable {
